@@ -184,9 +184,12 @@ func (e *env) step(c *core.Case, spec *txgen.TxSpec, hist *[]*outcome) bool {
 	}
 
 	// twin state for the refund measurement (taken before the observed call)
-	var twinBase *state.StateDB
+	var twinBase, plainBase *state.StateDB
 	if expect == "" {
 		twinBase = e.st.Copy()
+		if c.I%8 == 0 {
+			plainBase = e.st.Copy() // for a run without tracer: the observation must not change the execution
+		}
 	}
 
 	// value-flow model, fed by the tracer hooks of the observed call itself
@@ -323,6 +326,22 @@ func (e *env) step(c *core.Case, spec *txgen.TxSpec, hist *[]*outcome) bool {
 		if m.burnLate.Sign() > 0 {
 			run.Count("burn_value_sent_to_destroyed_account", 1)
 		}
+	}
+
+	if plainBase != nil {
+		used2 := usedPre
+		rc2, _, err2 := blockchain.ApplyTransaction(e.cfg, quietLogger, chainCtx{e.cfg}, new(types.GasPool).AddGas(poolPre), plainBase, e.header, tx, &used2, kvm.Config{})
+		var root2 common.Hash
+		if err2 == nil {
+			if sw, err := sweep(plainBase); err == nil {
+				root2 = sw.Root
+			}
+		}
+		if err2 != nil || rc2.GasUsed != gasUsed || rc2.Status != receipt.Status || root2 != post.Root {
+			run.Inconclusive(fmt.Sprintf("execution with the tracer attached differs from execution without it (case %s:%d)", c.Group, c.I))
+			return false
+		}
+		run.Count("runs_without_tracer_compared", 1)
 	}
 
 	// refund: twin run behind an interface wrapper that hides the refund counter
